@@ -732,6 +732,10 @@ type CtrlCase struct {
 	Kinds  []int // outermost first
 	Leaf   CtrlLeaf
 	Result bool // every construct and the function produce an i32
+	// Share, when set, gives the label of every level: level i is labelled $L<Share[i]>, so levels
+	// with equal entries reuse one identifier (label shadowing; a symbolic reference means the
+	// innermost construct of that name). nil: every level has its own label $L<i>.
+	Share []int
 }
 
 func (c CtrlCase) String() string {
@@ -746,7 +750,11 @@ func (c CtrlCase) String() string {
 	if len(k) == 0 {
 		k = []string{"-"}
 	}
-	return mode + "|" + strings.Join(k, ">") + "|" + c.Leaf.String()
+	s := mode + "|" + strings.Join(k, ">") + "|" + c.Leaf.String()
+	if c.Share != nil {
+		s += "|labels=" + strings.Trim(strings.ReplaceAll(fmt.Sprint(c.Share), " ", ","), "[]")
+	}
+	return s
 }
 
 // CtrlOpts selects instrumentation. Exec adds two mutable globals ($acc, $fuel), a trace update
@@ -754,6 +762,9 @@ func (c CtrlCase) String() string {
 // and its path is observable (for the checks that execute the family).
 type CtrlOpts struct {
 	Exec bool
+	// Trailing adds, in void nests, a `br_if` to the outermost construct after every inner
+	// construct has closed: a branch at every depth of the nest, resolved after a label scope ended.
+	Trailing bool
 }
 
 // arity of a branch to relative depth k from inside all constructs of c.
@@ -895,6 +906,9 @@ func BuildCtrl(c CtrlCase, o CtrlOpts) *Module {
 			return
 		}
 		label := "L" + strconv.Itoa(i)
+		if c.Share != nil {
+			label = "L" + strconv.Itoa(c.Share[i])
+		}
 		switch c.Kinds[i] {
 		case CBlock:
 			b = append(b, Block(label, res...))
@@ -934,8 +948,10 @@ func BuildCtrl(c CtrlCase, o CtrlOpts) *Module {
 			emit(i + 1)
 			b = append(b, Ins(OpEnd))
 		}
-		if i > 0 || true {
-			trace()
+		trace()
+		if o.Trailing && !c.Result && i >= 1 {
+			// here construct i has closed and constructs 0..i-1 are open: depth i-1 is the outermost
+			b = append(b, InsIdx(OpLocalGet, 0), InsIdx(OpBrIf, uint32(i-1)))
 		}
 	}
 	emit(0)
@@ -943,6 +959,65 @@ func BuildCtrl(c CtrlCase, o CtrlOpts) *Module {
 	m.Funcs = []Func{f}
 	m.Exports = append(m.Exports, Export{Name: "ctrl", Kind: KindFunc, Idx: 0})
 	return m
+}
+
+// labelPartitions returns every way to give n nested levels labels such that at least two levels
+// share one (restricted growth strings without the all-distinct one), e.g. n=3:
+// 0,0,0  0,0,1  0,1,0  0,1,1.
+func labelPartitions(n int) [][]int {
+	var out [][]int
+	cur := make([]int, n)
+	var rec func(i, maxUsed int)
+	rec = func(i, maxUsed int) {
+		if i == n {
+			if maxUsed < n-1 {
+				out = append(out, append([]int(nil), cur...))
+			}
+			return
+		}
+		for v := 0; v <= maxUsed+1; v++ {
+			cur[i] = v
+			rec(i+1, max(maxUsed, v))
+		}
+	}
+	if n > 0 {
+		cur[0] = 0
+		rec(1, 0)
+	}
+	return out
+}
+
+// CtrlShadowCases enumerates the nests of depth 2..maxDepth of CtrlCases once for every label
+// assignment in which at least two levels share an identifier.
+func CtrlShadowCases(maxDepth int) []CtrlCase {
+	var out []CtrlCase
+	parts := map[int][][]int{}
+	for _, c := range CtrlCases(maxDepth) {
+		d := len(c.Kinds)
+		if d < 2 {
+			continue
+		}
+		if parts[d] == nil {
+			parts[d] = labelPartitions(d)
+		}
+		for _, p := range parts[d] {
+			x := c
+			x.Share = p
+			out = append(out, x)
+		}
+	}
+	return out
+}
+
+// CtrlShadowFamily returns the label-shadowing items (family "ctrl-shadow"): branches by name
+// from the innermost position to every depth (br, br_if, br_table) and, in void nests, a trailing
+// br_if at every shallower depth.
+func CtrlShadowFamily(maxDepth int) []Item {
+	var out []Item
+	for _, c := range CtrlShadowCases(maxDepth) {
+		out = append(out, Item{Family: "ctrl-shadow", Key: c.String(), Module: BuildCtrl(c, CtrlOpts{Trailing: true})})
+	}
+	return out
 }
 
 // CtrlFamily returns the ctrl items for nests up to maxDepth.
